@@ -24,6 +24,15 @@ CHECKS = {
             "reuse against an interval-set model, and the free-everything / repeat-history closure.",
             "walker hook orc_verif_codemem_walk reports the chunk lists faithfully; sizes above one region and multi-threaded histories excluded",
             "DESIGN.md 4/C09", True),
+    "C19": ("xcpu", "model_checking",
+            "exhaustive enumeration of configuration vectors through the cpuid/xgetbv hooks, one process per vector, pure-function reference model of target selection",
+            "Every subset of the 12 CPU/OS feature inputs, crossed with vendor, maximum cpuid leaf, the documented and the legacy override "
+            "variable with every target name (and an unknown one) and ORC_CODE feature knock-outs, is presented to a fresh process; "
+            "executability, default flags, default target, by-name selection and what the default compile path installs are compared with "
+            "a model written from the property (safety obligations on all vectors, selection obligations on consistent ones).",
+            "cpuid/xgetbv hooks replace the instructions faithfully (answers above the maximum leaf follow the vendor's documented behaviour); "
+            "code for non-host configurations is classified by its listing, not executed",
+            "DESIGN.md 4/C19", True),
 }
 
 NOT_YET = {}
@@ -64,6 +73,8 @@ def main():
             "add_only": True,
         },
         "engines": [
+            {"name": "xcpu", "path": "engines/xcpu.c", "serves_properties": ["C19"],
+             "kind_free_text": "configuration-vector enumerator: fork per vector, hooks answer cpuid/xgetbv, parent judges against the model"},
             {"name": "xhist", "path": "engines/xhist.c", "serves_properties": ["C09"],
              "kind_free_text": "explicit-state BFS over histories; state rebuilt by replay in forked children of an initialised zygote"},
             {"name": "xprog", "path": "engines/xprog.c", "serves_properties": ["C01"],
